@@ -7,8 +7,13 @@ what asyncio's selector socket transport shows it (checked against CPython 3.12 
 * `create_connection`: the protocol factory is called when the handshake is over, `connection_made` is run through
   `call_soon`, the coroutine returns one loop iteration later; a closed port gives `ConnectionRefusedError`, a host
   that does not answer gives `TimeoutError(ETIMEDOUT)` after `syn_timeout` seconds (Linux: 127 s);
-* the accepting side gets its protocol (factory of the listener) and `connection_made` one link delay later;
-  bytes that arrive before are kept (kernel receive buffer);
+* the accepting side: one link delay later the connection is taken from the listening socket's backlog
+  (`_accept_connection`, event "accepting"); one loop iteration later the listener's protocol factory is called and the
+  transport made (`_accept_connection2`, event "accepted"); `connection_made` runs one further iteration later (event
+  "made"): in between the protocol object exists without a transport. Bytes that arrive before are kept (kernel
+  receive buffer). If the server was closed meanwhile the connection is reset silently (CPython 3.12.1 itself trips
+  over an assertion in `Server._attach` there and reports it to the loop's exception handler; not modelled, it is
+  not the library's doing);
 * `write()` after `close()` is dropped (and recorded), `close()` flushes what was written, `connection_lost(None)` comes
   through `call_soon`; the other end sees EOF after the link delay (`eof_received()`, then it is closed unless that
   returned true); `abort()` makes the other end lose the connection with `ConnectionResetError`;
@@ -21,6 +26,11 @@ Byte order on one direction of a connection is preserved whatever the delays. Ev
 `fabric.log` (`Ev` tuples, logical order), so "after this point" can be expressed as a log index and is independent
 of ties on the virtual clock.
 
+Step triggers: `fut = fabric.arm(conn, side, kind, n)` is resolved when the n-th event of that kind is recorded for
+that connection end; a coroutine awaiting it continues in the next loop iteration, ahead of whatever the event has
+scheduled itself (`await asyncio.sleep(0)` k times moves it k iterations further). This places an action between two
+steps that happen at the same virtual instant.
+
 Raw (non-aiocoap) peers are ordinary `asyncio.Protocol`s of the harness: `fabric.listen(ip, port, factory, owner)` and
 `await fabric.connect(factory, ip, port, owner=..., local=(ip, port))`.
 """
@@ -30,8 +40,8 @@ import collections
 import errno
 
 Ev = collections.namedtuple("Ev", "t kind conn side owner data")
-# kinds: connect refused timeout established accepted write late-write deliver dropped close abort eof lost fatal
-#        listen unlisten
+# kinds: connect refused timeout connect-cancelled established accepting accepted made write late-write deliver dropped
+#        close abort reset force-close eof lost fatal listen unlisten
 
 
 class StreamEnd(asyncio.Transport):
@@ -69,8 +79,7 @@ class StreamEnd(asyncio.Transport):
         return "<StreamEnd #%d%s %s %r->%r%s>" % (self.conn, self.side, self.owner, self._extra["sockname"], self._extra["peername"], " closing" if self.closing else "")
 
     def _log(self, kind, data=None):
-        self.fabric.log.append(Ev(self.loop.time(), kind, self.conn, self.side, self.owner, data))
-        return len(self.fabric.log) - 1
+        return self.fabric.record(kind, self.conn, self.side, self.owner, data)
 
     # ---- asyncio.Transport API ----
     def get_extra_info(self, name, default=None):
@@ -194,7 +203,8 @@ class StreamEnd(asyncio.Transport):
         self._deliver(item)
 
     def _attach(self, protocol):
-        """accepting end: protocol created; connection_made, then whatever has arrived meanwhile"""
+        """accepting end: protocol created (transport constructor); connection_made comes one loop iteration later, then
+        whatever has arrived meanwhile"""
         self.protocol = protocol
         self.t_made = self.loop.time()
         self._log("accepted")
@@ -202,6 +212,7 @@ class StreamEnd(asyncio.Transport):
 
     def _made(self):
         self.made = True
+        self._log("made")
         try:
             self.protocol.connection_made(self)
         finally:
@@ -282,7 +293,7 @@ class SimServer(asyncio.AbstractServer):
         self.closed = True
         if self.fabric.listeners.get(self.key) is self:
             del self.fabric.listeners[self.key]
-        self.fabric.log.append(Ev(self.fabric.loop.time(), "unlisten", None, "s", self.owner, self.key))
+        self.fabric.record("unlisten", None, "s", self.owner, self.key)
         if self.active == 0:
             self._wakeup()
 
@@ -316,6 +327,26 @@ class Fabric:
         self.local_ip = {}  # owner -> ip used as source address
         self._conn = 0
         self._eph = 40000
+        self._seen = {}  # (conn, side, kind) -> index of the last such event
+        self._armed = {}  # (conn, side, kind, n) -> future
+
+    # ---- the event log, and step triggers on it ----
+    def record(self, kind, conn, side, owner, data=None):
+        """append an event; returns its index. An armed trigger on (conn, side, kind, n) fires when the n-th event of
+        that kind at that connection end is recorded: its future is resolved then and there, i.e. whoever awaits it runs in
+        the next loop iteration, queued *before* whatever the fabric schedules as a consequence of the event."""
+        self.log.append(Ev(self.loop.time(), kind, conn, side, owner, data))
+        key = (conn, side, kind)
+        n = self._seen[key] = self._seen.get(key, -1) + 1
+        fut = self._armed.pop(key + (n,), None)
+        if fut is not None and not fut.done():
+            fut.set_result(len(self.log) - 1)
+        return len(self.log) - 1
+
+    def arm(self, conn, side, kind, n=0):
+        fut = self.loop.create_future()
+        self._armed[(conn, side, kind, n)] = fut
+        return fut
 
     # ---- configuration ----
     def install(self):
@@ -343,7 +374,7 @@ class Fabric:
             raise OSError(errno.EADDRINUSE, "address in use in the simulated network: %r" % (key,))
         srv = SimServer(self, key, factory, owner)
         self.listeners[key] = srv
-        self.log.append(Ev(self.loop.time(), "listen", None, "s", owner, key))
+        self.record("listen", None, "s", owner, key)
         return srv
 
     # ---- loop API stand-ins ----
@@ -370,24 +401,23 @@ class Fabric:
             self._eph += 1
             local = (self.local_ip.get(owner, "10.255.0.1"), self._eph)
         rec = {"conn": cid, "owner": owner, "dst": (host, port), "t_start": loop.time(), "state": "pending", "t_end": None, "end": None}
-        self.log.append(Ev(loop.time(), "connect", cid, "c", owner, (host, port)))
-        rec["log"] = len(self.log) - 1
+        rec["log"] = self.record("connect", cid, "c", owner, (host, port))
         self.connects.append(rec)
         try:
             if host in self.blackholes:
                 await asyncio.sleep(self.syn_timeout)
                 rec.update(state="timeout", t_end=loop.time())
-                self.log.append(Ev(loop.time(), "timeout", cid, "c", owner, (host, port)))
+                self.record("timeout", cid, "c", owner, (host, port))
                 raise TimeoutError(errno.ETIMEDOUT, "Connect call failed %r" % ((host, port),))
             await asyncio.sleep(self._rtt(local[0], host))
             srv = self.listeners.get((host, port))
             if srv is None:
                 rec.update(state="refused", t_end=loop.time())
-                self.log.append(Ev(loop.time(), "refused", cid, "c", owner, (host, port)))
+                self.record("refused", cid, "c", owner, (host, port))
                 raise ConnectionRefusedError(errno.ECONNREFUSED, "Connect call failed %r" % ((host, port),))
         except asyncio.CancelledError:
             rec.update(state="cancelled", t_end=loop.time())
-            self.log.append(Ev(loop.time(), "connect-cancelled", cid, "c", owner, (host, port)))
+            self.record("connect-cancelled", cid, "c", owner, (host, port))
             raise
         cend = StreamEnd(self, cid, "c", owner, local, (host, port))
         send = StreamEnd(self, cid, "s", srv.owner, (host, port), local, server=srv)
@@ -397,9 +427,16 @@ class Fabric:
         rec.update(state="established", t_end=loop.time(), end=cend)
         cend._log("established", (host, port))
 
+        def accept_ready():
+            # selector_events._accept_connection: the listening socket is readable, the connection is taken from the
+            # backlog and a task is made for _accept_connection2, which runs in the next loop iteration: protocol
+            # factory, transport (whose constructor schedules connection_made for the iteration after that)
+            send._log("accepting")
+            loop.call_soon(accept)
+
         def accept():
             if srv.closed:
-                # handshake done by the kernel, never accepted: the listening socket's backlog is reset
+                # the server was closed before the transport was made: the connection is reset
                 send.closing = True
                 send.lost_scheduled = True
                 send.lost = True
@@ -409,7 +446,7 @@ class Fabric:
             srv._attach()
             send._attach(srv.factory())
 
-        loop.call_later(self.delay_of(send), accept)
+        loop.call_later(self.delay_of(send), accept_ready)
         protocol = protocol_factory()
         cend.protocol = protocol
         cend.t_made = loop.time()
